@@ -3,7 +3,7 @@ import DiscretModel.Lemmas.RoomBuild
 /-
 C01 — Local writes are applied only with the room's rights at that time.
 
-Models: `Model/LocalWrite.lean` (plan of the mutation tree, right checks, write, deletions) and
+Models: `Model/LocalWrite.lean` (plan of the mutation tree — any depth —, right checks, write, deletions) and
 `Model/RoomBuild.lean` (`validate`: room mutations), over the room decision functions of `Model/Room.lean`.
 The compiled model is run against the real functions on every check (`checks/C01.py`, harness `mode=fn`).
 
@@ -29,16 +29,16 @@ theorem C01_rows {rooms : List Room} {db db' : Db} {caller : Key} {now : Int} {m
   unfold mutate at h
   split at h
   · cases h
-  · rename_i top subs hp
+  · rename_i cs hp
     split at h
     · cases h
     · rename_i l hv
       cases h
       intro r hr hnot
-      obtain ⟨hmap, hauth⟩ := validateAll_authorised (Or.inl rfl) (Or.inl rfl) hv
+      obtain ⟨hmap, hauth⟩ := validateList_authorised (Or.inl rfl) (Or.inl rfl) hv
       rcases applyAll_rows hr with h1 | ⟨ct, hct, n, hn, rfl⟩
       · exact absurd h1 hnot
-      · have hcin : ct.1 ∈ top :: subs := by rw [← hmap]; exact List.mem_map.mpr ⟨ct, hct, rfl⟩
+      · have hcin : ct.1 ∈ cs := by rw [← hmap]; exact List.mem_map.mpr ⟨ct, hct, rfl⟩
         have hpl := plan_planned hp ct.1 hcin
         have hne : ct.1.node ≠ none := by rw [hn]; exact fun e => by cases e
         refine ⟨ct.1, hauth ct hct hne, ?_, ?_, rfl, ?_⟩
@@ -57,16 +57,16 @@ theorem C01_references {rooms : List Room} {db db' : Db} {caller : Key} {now : I
   unfold mutate at h
   split at h
   · cases h
-  · rename_i top subs hp
+  · rename_i cs hp
     split at h
     · cases h
     · rename_i l hv
       cases h
       intro e he hnot
-      obtain ⟨hmap, hauth⟩ := validateAll_authorised (Or.inl rfl) (Or.inl rfl) hv
+      obtain ⟨hmap, hauth⟩ := validateList_authorised (Or.inl rfl) (Or.inl rfl) hv
       rcases applyAll_edges he with h1 | ⟨ct, hct, x, hx, rfl⟩
       · exact absurd h1 hnot
-      · have hcin : ct.1 ∈ top :: subs := by rw [← hmap]; exact List.mem_map.mpr ⟨ct, hct, rfl⟩
+      · have hcin : ct.1 ∈ cs := by rw [← hmap]; exact List.mem_map.mpr ⟨ct, hct, rfl⟩
         have hpl := plan_planned hp ct.1 hcin
         refine ⟨rfl, ?_⟩
         cases hn : ct.1.node with
@@ -212,14 +212,26 @@ theorem C01_room_mutation_admins {mem : Option Room} {caller : Key} {m : MutSpec
 
 -- an authorised nested update: member 2 (all-rows) rewrites its row 0 under its unchanged row 1
 example : (mutate Defects.none rooms01 db0 2 4
-    { handle := 1, isNew := false, entity := 1, room := none, val := none,
-      field := .arr 0 [{ handle := 0, isNew := false, entity := 1, room := none, val := some 7 }] }).toBool = true := by
+    (.mk 1 false 1 none none (.arr 0 [.mk 0 false 1 none (some 7) .none]))).toBool = true := by
+  decide
+
+-- an authorised four-level creation with rooms inherited and overridden on the way down: member 3 (own-rows right
+-- in room 0, all-rows right in room 1) creates rows 20, 21 in room 0 and rows 22, 23 in room 1
+example : (match mutate Defects.none rooms01 db0 3 4 deepCreate with
+    | .ok db' => (db'.rows.filter fun r => 20 ≤ r.id).map fun r => (r.id, r.room, r.author)
+    | .error _ => []) = [(20, some 0, 3), (21, some 0, 3), (22, some 1, 3), (23, some 1, 3)] := by
+  decide
+
+-- the same tree by member 2, who has no right in room 1: refused as a whole, although the first two levels are allowed
+example : (mutate Defects.none rooms01 db0 2 4 deepCreate).toBool = false ∧
+    (mutate Defects.none rooms01 db0 2 4
+      (.mk 20 true 1 (some 0) (some 1) (.arr 0 [.mk 21 true 1 none (some 2) .none]))).toBool = true := by
   decide
 
 -- an authorised move: member 3 creates a row in room 0 (own-rows) and moves it to room 1
 example : (mutate Defects.none rooms01
     { db0 with rows := db0.rows ++ [⟨5, 1, some 0, 3, 3, 3, 9⟩] } 3 4
-    { handle := 5, isNew := false, entity := 1, room := some 1, val := some 7, field := .none }).toBool = true := by decide
+    (.mk 5 false 1 (some 1) (some 7) .none)).toBool = true := by decide
 
 /-! ### the code as it is: the full statement is false
 
@@ -232,9 +244,17 @@ changes after a fix in /repo). -/
 theorem C01_breaks_subNodesSkipped :
     room0.can 5 1 4 .mutateAll = false ∧ room0.can 5 1 4 .mutateSelf = false ∧
     (mutate { Defects.none with subNodesSkipped := true } rooms01 db0 5 4
-      { handle := 0, isNew := false, entity := 1, room := none, val := some 66, field := .none }).toBool = false ∧
+      (.mk 0 false 1 none (some 66) .none)).toBool = false ∧
     authorOf (mutate { Defects.none with subNodesSkipped := true } rooms01 db0 5 4 nestedByOutsider) 0 = some 5 ∧
     (mutate Defects.none rooms01 db0 5 4 nestedByOutsider).toBool = false := by
+  decide
+
+/-- **C01_breaks_subNodesSkipped, two levels down.** The same defect reaches any depth: below the unchanged row 1
+    and the unchanged row 0, the outsider 5 rewrites row 8, which is then signed by key 5. With the switch off the
+    mutation is refused. -/
+theorem C01_breaks_subNodesSkipped_deep :
+    authorOf (mutate { Defects.none with subNodesSkipped := true } rooms01 db3 5 4 deepByOutsider) 8 = some 5 ∧
+    (mutate Defects.none rooms01 db3 5 4 deepByOutsider).toBool = false := by
   decide
 
 /-- **C01_breaks_oldRoomLookup (#2).** Member 3 has only the own-rows right in room 0 and the all-rows right
@@ -243,11 +263,11 @@ theorem C01_breaks_subNodesSkipped :
 theorem C01_breaks_oldRoomLookup :
     room0.can 3 1 4 .mutateAll = false ∧
     (mutate { Defects.none with oldRoomLookup := true } rooms01 db0 3 4
-      { handle := 0, isNew := false, entity := 1, room := none, val := some 5, field := .none }).toBool = false ∧
+      (.mk 0 false 1 none (some 5) .none)).toBool = false ∧
     (mutate { Defects.none with oldRoomLookup := true } rooms01 db0 3 4
-      { handle := 0, isNew := false, entity := 1, room := some 1, val := some 5, field := .none }).toBool = true ∧
+      (.mk 0 false 1 (some 1) (some 5) .none)).toBool = true ∧
     (mutate Defects.none rooms01 db0 3 4
-      { handle := 0, isNew := false, entity := 1, room := some 1, val := some 5, field := .none }).toBool = false := by
+      (.mk 0 false 1 (some 1) (some 5) .none)).toBool = false := by
   decide
 
 /-- **C01_breaks_refDeletionResign (#3).** The outsider 5 "deletes" a reference that does not exist: row 0 is
@@ -289,21 +309,21 @@ theorem C01_breaks_sysRefDeletionUnguarded :
 
 /-! ### the code as it is, under an explicit guard -/
 
-/-- the mutation has none of the shapes the code mishandles: its own row changes or no sub-entity row does,
-    and no row changes room -/
-def Guard (top : Change) (subs : List Change) : Prop :=
-  (top.node ≠ none ∨ ∀ c ∈ subs, c.node = none) ∧ ∀ c ∈ top :: subs, NoMove c
+/-- the mutation has none of the shapes the code mishandles: no row changes below a row of the tree that stays
+    unchanged (at any depth), and no row changes room -/
+def Guard (cs : List Change) : Prop :=
+  (∀ c ∈ cs, c.shadowed = true → c.node = none) ∧ ∀ c ∈ cs, NoMove c
 
-/-- **C01_partial (the code as it is).** For a mutation whose plan satisfies `Guard` — the entity's own row
-    changes or none of its sub-entities' rows does (excludes #1), and no row changes room (excludes #2) — the
-    code writes only rows whose change passed the right check, whatever the switches are (`df` arbitrary, in
+/-- **C01_partial (the code as it is).** For a mutation tree of any depth whose plan satisfies `Guard` — no entity
+    whose row changes lies below an entity whose row does not (excludes #1), and no row changes room (excludes #2) —
+    the code writes only rows whose change passed the right check, whatever the switches are (`df` arbitrary, in
     particular `Defects.asImplemented`). Missing with respect to the full
     statement: the nested sub-entity under an unchanged parent, room moves, reference deletions (#3),
     deletions of referenced rows, and the reference deletion on `sys.Room` (#32), all shown false above or
     by replay (`corpus/C01`). (#1, #2, the first half of #3 and #32 are fixed in /repo since; the replays stay as
     regression cases.) -/
 theorem C01_partial (df : Defects) {rooms : List Room} {db db' : Db} {caller : Key} {now : Int} {m : Mut}
-    {top : Change} {subs : List Change} (hp : plan db now m = .ok (top, subs)) (hg : Guard top subs)
+    {cs : List Change} (hp : plan db now m = .ok cs) (hg : Guard cs)
     (h : mutate df rooms db caller now m = .ok db') :
     ∀ r ∈ db'.rows, r ∉ db.rows →
       ∃ c, Authorised rooms caller now c ∧ c.entity = r.entity ∧ c.roomId = r.room ∧ r.author = caller := by
@@ -315,20 +335,26 @@ theorem C01_partial (df : Defects) {rooms : List Room} {db db' : Db} {caller : K
   · rename_i l hv
     cases h
     intro r hr hnot
-    obtain ⟨hmap, hauth⟩ := validateAll_authorised (Or.inr hg.1) (Or.inr hg.2) hv
+    obtain ⟨hmap, hauth⟩ := validateList_authorised (Or.inr hg.1) (Or.inr hg.2) hv
     rcases applyAll_rows hr with h1 | ⟨ct, hct, n, hn, rfl⟩
     · exact absurd h1 hnot
-    · have hcin : ct.1 ∈ top :: subs := by rw [← hmap]; exact List.mem_map.mpr ⟨ct, hct, rfl⟩
+    · have hcin : ct.1 ∈ cs := by rw [← hmap]; exact List.mem_map.mpr ⟨ct, hct, rfl⟩
       have hpl := plan_planned hp ct.1 hcin
       have hne : ct.1.node ≠ none := by rw [hn]; exact fun e => by cases e
       exact ⟨ct.1, hauth ct hct hne, (hpl.node n hn).1.symm, (hpl.node n hn).2.symm, rfl⟩
 
+/-- the mutated entity itself is never below an unchanged row: the first clause of `Guard` only constrains the
+    sub-entities -/
+theorem C01_guard_root {db : Db} {now : Int} {m : Mut} {cs : List Change} (hp : plan db now m = .ok cs) :
+    ∃ top rest, cs = top :: rest ∧ top.shadowed = false := by
+  obtain ⟨top, rest, h1, h2, _⟩ := plan_root hp
+  exact ⟨top, rest, h1, h2⟩
+
 -- the guard is satisfiable by a non-trivial mutation of the code as it is: member 2 updates its row 1 and,
--- nested under it, its row 0
-example : ∃ top subs,
-    plan db0 4 { handle := 1, isNew := false, entity := 1, room := none, val := some 8,
-                 field := .arr 0 [{ handle := 0, isNew := false, entity := 1, room := none, val := some 7 }] }
-      = .ok (top, subs) ∧ top.node ≠ none ∧ subs.length = 1 := by
-  refine ⟨_, _, rfl, by decide, by decide⟩
+-- nested under it, its row 0 and, below that one, its row 8 (three levels)
+example : ∃ cs,
+    plan db3 4 (.mk 1 false 1 none (some 8) (.arr 0 [.mk 0 false 1 none (some 7) (.arr 0 [.mk 8 false 1 none (some 6) .none])]))
+      = .ok cs ∧ cs.length = 3 ∧ (cs.all fun c => c.node.isSome && !c.shadowed) = true := by
+  refine ⟨_, rfl, by decide, by decide⟩
 
 end Discret.LocalWrite
